@@ -92,6 +92,10 @@ Theorem typed_rt_refuted :
 Proof. exact typed_rt_refuted. Qed.
 Print Assumptions typed_rt_refuted.
 
+Theorem typed_rt_unrestricted_is_false : ~ typed_rt_statement.
+Proof. exact typed_rt_false. Qed.
+Print Assumptions typed_rt_unrestricted_is_false.
+
 (* one witness per class of loss inherent in the format *)
 Theorem typed_rt_witnesses :
   roundtrip "Bits" (VInt 1024) = Ok ("bits"%string, CInt 1024) /\
